@@ -14,7 +14,7 @@ FAMILY = "sem"
 PKG = "internal/vkgo/pkg/semaphore"
 OVERLAY = {"verif_sem_test.go": str(VERIF / "overlay" / PKG / "verif_sem_test.go")}
 
-SIG_F4 = "C42:head_blocked:cancel-front:weight0-head:size==cur"   # finding F4
+SIG_F4 = "C42:head_blocked:cancel-front:weight0-head:size==cur"   # finding F4 (fixed in /repo 61b3423d): emitted again if the old guard `>` ever returns
 SIG_DOOMED = "C42:parked-caller-fits:after-SetSize"   # finding F13
 
 MAXI = (1 << 63) - 1
@@ -378,6 +378,7 @@ def run(ctx):
                      "values below 2^62 in absolute value for the theorems (int64 wrap-around is modelled and exercised, "
                      "C42_no_overadmit_needs_bounded shows the bound is needed)",
                      "no call panics (negative argument, Release of more than held) for the no-lost-wakeup theorems",
+                     "the model runs the current cancel-path guard (code_guard: s.size >= s.cur); the old guard survives only in the historical lemmas",
                      "Go code is modelled, not verified: agreement is established on the histories listed under op_kinds"],
         rule="one evaluation = one history (4..15 critical sections) run on the real semaphore and on the extracted model, "
              "compared after every step; all history lines are distinct; non-trivial = histories in which at least one Acquire "
